@@ -130,7 +130,11 @@ struct WRow { name: String, cmp: u8, coeffs: Vec<u64>, rhs: u64 }
 #[derive(Serialize, Deserialize)]
 struct WModel { opt: u8, obj: Vec<u64>, off: u64, vars: Vec<String>, dom: Vec<(String, WTy)>, rows: Vec<WRow> }
 #[derive(Serialize, Deserialize)]
-struct WReq { kind: SolverKind, model: WModel, opts: Opts }
+struct WReq { kind: SolverKind, model: WModel, opts: Opts, #[serde(default)] pin_unused_free: bool }
+
+/// Do the mirror kinds pin an unused free column to 0 like the repaired wrappers do
+/// (`fixes/C05-microlp-unused-free-column.diff`)?  Set once per run by `gen_lp::detect_variants`.
+pub static MIRROR_PINS_UNUSED_FREE: std::sync::atomic::AtomicBool = std::sync::atomic::AtomicBool::new(false);
 
 fn bits(v: &[f64]) -> Vec<u64> { v.iter().map(|x| x.to_bits()).collect() }
 fn unbits(v: &[u64]) -> Vec<f64> { v.iter().map(|x| f64::from_bits(*x)).collect() }
@@ -206,7 +210,7 @@ fn spawn() -> Worker {
 
 /// Runs one solver call in the worker process with a wall-clock limit.
 pub fn solve(kind: SolverKind, lm: &LinearModel, opts: &Opts, timeout: Duration) -> Outcome {
-    let req = serde_json::to_string(&WReq { kind, model: to_wire(lm), opts: opts.clone() }).unwrap();
+    let req = serde_json::to_string(&WReq { kind, model: to_wire(lm), opts: opts.clone(), pin_unused_free: MIRROR_PINS_UNUSED_FREE.load(std::sync::atomic::Ordering::Relaxed) }).unwrap();
     let mut guard = WORKER.lock().unwrap();
     for attempt in 0..2 {
         if guard.is_none() { *guard = Some(spawn()); }
@@ -278,7 +282,7 @@ pub fn worker_main() {
         let out = match serde_json::from_str::<WReq>(&line) {
             Ok(req) => {
                 let lm = from_wire(&req.model);
-                match std::panic::catch_unwind(std::panic::AssertUnwindSafe(|| run(req.kind, &lm, &req.opts))) {
+                match std::panic::catch_unwind(std::panic::AssertUnwindSafe(|| run(req.kind, &lm, &req.opts, req.pin_unused_free))) {
                     Ok(o) => o,
                     Err(p) => Outcome::Panic(
                         p.downcast_ref::<&str>().map(|s| s.to_string())
@@ -345,7 +349,7 @@ fn milp_options(o: &Opts) -> rooc::MilpOptions {
     rooc::MilpOptions { mip_gap: o.mip_gap_bits.map(f64::from_bits), time_limit: o.time_limit_ns.map(Duration::from_nanos) }
 }
 
-fn run(kind: SolverKind, lm: &LinearModel, o: &Opts) -> Outcome {
+fn run(kind: SolverKind, lm: &LinearModel, o: &Opts, pin: bool) -> Outcome {
     match kind {
         SolverKind::Milp => {
             if o.mip_gap_bits.is_none() && o.time_limit_ns.is_none() { pack_milp(lm, rooc::solve_milp_lp_problem(lm)) }
@@ -364,8 +368,8 @@ fn run(kind: SolverKind, lm: &LinearModel, o: &Opts) -> Outcome {
         }
         SolverKind::BuilderAuto => { use rooc::Solver; pack_milp(lm, rooc::Auto.solve(lm)) }
         SolverKind::BuilderClarabel => { use rooc::Solver; pack_real(lm, rooc::Clarabel.solve(lm)) }
-        SolverKind::RawMilp => raw_milp(lm, o),
-        SolverKind::RawMicroLp => raw_microlp(lm),
+        SolverKind::RawMilp => raw_milp(lm, o, pin),
+        SolverKind::RawMicroLp => raw_microlp(lm, pin),
         SolverKind::RawClarabel => raw_clarabel(lm),
     }
 }
@@ -393,7 +397,14 @@ fn mlp_cmp(c: &Comparison) -> Option<microlp::ComparisonOp> {
 }
 
 /// mirror of `milp_solver.rs::solve_milp_lp_problem_with` up to `problem.solve_with(..)`
-fn raw_milp(lm: &LinearModel, o: &Opts) -> Outcome {
+/// mirror of `common.rs::is_unused_column`
+fn unused_free(lm: &LinearModel, i: usize, t: &VariableType) -> bool {
+    matches!(t, VariableType::Real(a, b) if *a == f64::NEG_INFINITY && *b == f64::INFINITY)
+        && lm.objective().get(i).map_or(true, |c| *c == 0.0)
+        && lm.constraints().iter().all(|r| r.coefficients().get(i).map_or(true, |c| *c == 0.0))
+}
+
+fn raw_milp(lm: &LinearModel, o: &Opts, pin: bool) -> Outcome {
     let vars = lm.variables();
     if lm.objective().len() != vars.len() { return Outcome::Err { variant: "pre:objective-length".into(), msg: String::new() }; }
     let dir = match lm.optimization_type() { OptimizationType::Max => microlp::OptimizationDirection::Maximize, _ => microlp::OptimizationDirection::Minimize };
@@ -403,6 +414,7 @@ fn raw_milp(lm: &LinearModel, o: &Opts) -> Outcome {
         let d = match lm.domain().get(v) { Some(d) => d, None => return Outcome::Panic("pre:unwrap on missing domain".into()) };
         let c = lm.objective()[i];
         mv.push(match d.get_type() {
+            t if pin && unused_free(lm, i, t) => p.add_var(c, (0.0, 0.0)),
             VariableType::Real(a, b) | VariableType::NonNegativeReal(a, b) => p.add_var(c, (*a, *b)),
             VariableType::Boolean => p.add_binary_var(c),
             VariableType::IntegerRange(a, b) => p.add_integer_var(c, (*a, *b)),
@@ -428,7 +440,7 @@ fn raw_milp(lm: &LinearModel, o: &Opts) -> Outcome {
 }
 
 /// mirror of `simplex_solver.rs::solve_real_lp_problem_micro_lp` up to `problem.solve()`
-fn raw_microlp(lm: &LinearModel) -> Outcome {
+fn raw_microlp(lm: &LinearModel, pin: bool) -> Outcome {
     for (_, d) in lm.domain() {
         if !matches!(d.get_type(), VariableType::Real(_, _) | VariableType::NonNegativeReal(_, _)) {
             return Outcome::Err { variant: "pre:InvalidDomain".into(), msg: String::new() };
@@ -444,6 +456,7 @@ fn raw_microlp(lm: &LinearModel) -> Outcome {
     for (i, v) in lm.variables().iter().enumerate() {
         let d = match lm.domain().get(v) { Some(d) => d, None => return Outcome::Err { variant: "pre:Other".into(), msg: String::new() } };
         match d.get_type() {
+            t if pin && unused_free(lm, i, t) => mv.push(p.add_var(lm.objective()[i], (0.0, 0.0))),
             VariableType::Real(a, b) | VariableType::NonNegativeReal(a, b) => mv.push(p.add_var(lm.objective()[i], (*a, *b))),
             _ => return Outcome::Err { variant: "pre:InvalidDomain".into(), msg: String::new() },
         }
